@@ -22,7 +22,7 @@ AsQ(dt, v) == IF IsFlt(dt) THEN v ELSE <<v, 1>>
 NumEq(dtE, vE, dtO, vO) ==
   LET e == IF IsFlt(dtE) = IsFlt(dtO) THEN vE ELSE AsQ(dtE, vE)
       o == IF IsFlt(dtE) = IsFlt(dtO) THEN vO ELSE AsQ(dtO, vO)
-  IN e = o \/ (e = <<0, 1>> /\ o = <<0, -1>>)
+  IN e = o \/ ((IsFlt(dtE) \/ IsFlt(dtO)) /\ e = <<0, 1>> /\ o = <<0, -1>>)
 SeqEq(dtE, qE, dtO, qO) == Len(qE) = Len(qO) /\ \A i \in DOMAIN qE : NumEq(dtE, qE[i], dtO, qO[i])
 RowsShapeEq(rE, rO) == Len(rE) = Len(rO) /\ \A r \in DOMAIN rE : Len(rE[r]) = Len(rO[r])
 RowsEq(dtE, rE, dtO, rO) == \A r \in DOMAIN rE : SeqEq(dtE, rE[r], dtO, rO[r])
